@@ -9,10 +9,10 @@ Import ListNotations.
 Local Open Scope string_scope.
 Local Open Scope list_scope.
 
-(** The three structural facts the model branches on. *)
-Lemma flags_ok : action_store_first = true /\ close_store_first = true /\ poll_none_retest = true.
-Proof. repeat split; reflexivity. Qed.
-
+(** The three structural facts the model branches on ([action_store_first], [close_store_first],
+    [poll_none_retest]) are NOT pinned here: the model does whatever they say, and each theorem
+    that needs one of them fails by itself when the source changes it (C09: store before wake in
+    the action; C11: store before wake in close, the re-test in poll_signal). *)
 Lemma consts_ok : MAX_SIGNUM = 128 /\ CHAN_SLOTS = 5.
 Proof. split; reflexivity. Qed.
 
